@@ -720,7 +720,20 @@ func c10CheckFlight(e *c10Expect, dgs [][]byte) (fails []c10Fail, pkts []*c10Pkt
 			return
 		}
 		pf := planChecks(planFor(i))
-		if len(pf) > 0 && !isFlight && planFor(i) != planFor(0) && len(planChecks(planFor(0))) == 0 {
+		// "governed by entry 0 instead of entry i" needs positive evidence, not just "entry 0
+		// would have been satisfied" (the zero plan is satisfied by any packet of 1200.. bytes):
+		// either entry 0 pins a size / CRYPTO length and the datagram has exactly that, or entry
+		// i's own caps were visibly not applied to the CRYPTO popped (more CRYPTO than entry i's
+		// CryptoLength, or more than a packet of entry i's PacketSize can hold even as a single
+		// frame). A re-framing builder that overshoots a cap that WAS applied is
+		// size-exact/frames-exceed, not plan-index.
+		p0, pi := planFor(0), planFor(i)
+		minCryptoFrame := 1 + len(c10AppendVarint(nil, lo)) + len(c10AppendVarint(nil, cb)) + int(cb)
+		follows0 := (p0.PacketSize > 0 && p.PacketLen == p0.PacketSize && len(dg) == p0.PacketSize) ||
+			(p0.CryptoLength > 0 && cb == uint64(p0.CryptoLength) && pi.CryptoLength != p0.CryptoLength)
+		ignoresI := (pi.CryptoLength > 0 && cb > uint64(pi.CryptoLength)) ||
+			(pi.PacketSize > 0 && crypto > 0 && p.HdrLen+minCryptoFrame+16 > pi.PacketSize && (e.MaxPacket == 0 || pi.PacketSize <= e.MaxPacket))
+		if len(pf) > 0 && !isFlight && pi != p0 && len(planChecks(p0)) == 0 && (follows0 || ignoresI) {
 			pf = append([]c10Fail{}, c10Fail{"plan-index", fmt.Sprintf("datagram %d follows InitialPackets[0] = %+v, not InitialPackets[%d] = %+v: packet %d bytes, datagram %d bytes, %d CRYPTO bytes", i, planFor(0), min(i, len(ips.InitialPackets)-1), planFor(i), p.PacketLen, len(dg), cb)})
 		}
 		fails = append(fails, pf...)
@@ -770,6 +783,9 @@ func c10CheckFlight(e *c10Expect, dgs [][]byte) (fails []c10Fail, pkts []*c10Pkt
 		if (!e.Truncated && int(end) != e.HelloLen) || int(end) > e.HelloLen || !bytes.Equal(stream, e.Hello[:end]) {
 			fail("crypto-split", "the flight carries %d CRYPTO bytes, the stream has %d (or the bytes differ)", end, e.HelloLen)
 		}
+	case len(dgs) >= 10 && len(stream) >= 4 && stream[0] == 1 && int(stream[1])<<16|int(stream[2])<<8|int(stream[3]) > len(stream)-4:
+		// a long flight against a live server: the capture window (before the server's first
+		// answer) ends while the pacer still holds datagrams back; the prefix is consistent
 	default:
 		if len(stream) < 4 || stream[0] != 1 || int(stream[1])<<16|int(stream[2])<<8|int(stream[3]) != len(stream)-4 {
 			fail("crypto-split", "the reassembled %d CRYPTO bytes are not one complete ClientHello", len(stream))
@@ -903,7 +919,14 @@ func c10DialSrv(sp *quic.QUICSpec, conf *quic.Config, srvConf *quic.Config, blac
 		for _, d := range e.Router.log {
 			// the first flight: sent before anything from the server could have arrived
 			// (one-way latency 5 ms) and long before the first PTO
-			if d.Dir == 1 || d.Time > 4*time.Millisecond {
+			// (the pacer releases a burst of ten datagrams and spaces the rest; into a black
+			// hole nothing can arrive, so everything up to the dial's 100 ms deadline -- well
+			// before the first PTO -- is the first flight)
+			window := 4 * time.Millisecond
+			if blackhole {
+				window = 99 * time.Millisecond
+			}
+			if d.Dir == 1 || d.Time > window {
 				break
 			}
 			fl.Datagrams = append(fl.Datagrams, d.Data)
